@@ -24,6 +24,8 @@ PROOF_FAIL = (
     "failed to satisfy",
     "constructed value may fail to meet its declared type invariant",
     "possible truncation",
+    "unable to prove",
+    "closure precondition",
     "the value may be out of range",
 )
 RESOURCE = ("Resource limit (rlimit) exceeded", "resource limit", "timed out", "canceled")
